@@ -94,6 +94,14 @@ def label_event(pp, tid, A, mono, labelmods):
             "labelled": fix(r[0]) if o == "ret" else [0, 0], "plain": fix(r[1]) if o == "ret" else [0, 0]}
 
 
+def _job(args):
+    import peptacular as pp
+    warnings.simplefilter("ignore")
+    if args[0] == "static":
+        return static_event(pp, args[1], args[2], random.Random(args[3]))
+    return label_event(pp, args[1], args[2], args[3], args[4])
+
+
 def run(tier, seed, rep):
     warnings.simplefilter("ignore")
     import peptacular as pp
@@ -101,12 +109,13 @@ def run(tier, seed, rep):
     thorough = tier == "thorough"
     r = core.model_check("MC_Mass", "MC_Mass.cfg", workers=16, xmx="6g")
     rep.add_mc("MC_Mass (StaticEqualsExplicit and the other reference laws)", r)
-    evs = []
+    jobs = []
     for i in range(12000 if thorough else 1200):
-        evs.append(static_event(pp, f"s{i}", gen_static(rnd), rnd))
+        jobs.append(("static", f"s{i}", gen_static(rnd), rnd.randrange(10 ** 9)))
     for i in range(15000 if thorough else 1500):
         A = gen_label(rnd)
-        evs.append(label_event(pp, f"l{i}", A, True if i % 4 else False, rnd.random() < 0.4))
+        jobs.append(("label", f"l{i}", A, True if i % 4 else False, rnd.random() < 0.4))
+    evs = core.pmap(_job, jobs)
     res = core.validate_traces("Trace_Mass", evs, "C12", min_per_shard=60)
     rep.add_trace("static_rules_and_labels", evs, res,
                   sig=lambda e: (e["k"], len(e["A"]["seq"]) // 4, tuple(m["v"][:14] for m in e["A"]["static"])[:2],
